@@ -10,7 +10,7 @@ from lib import vlib
 from lib.vlib import Infra
 
 SPEC = os.path.join(vlib.SPECS, "wire")
-COUNT = {"quick": 800, "thorough": 12000}
+COUNT = {"quick": 800, "thorough": 40000}
 OWN = {"C22": ("decode", "stream", "convert", "fuzz"), "C23": ("trunc", "send")}
 
 
